@@ -367,20 +367,21 @@ fn projected_def(v9: bool) -> BoxedStrategy<Def> {
 }
 
 fn c13_pool() -> BoxedStrategy<gen::Pool> {
-    (2usize..=4)
-        .prop_flat_map(|n| {
-            let per = |v9: bool| {
-                proptest::collection::vec(
-                    prop_oneof![
-                        5 => proptest::collection::vec(projected_def(v9), 1..=2),
-                        1 => proptest::collection::vec(if v9 { gen::v9_def(true, 4) } else { gen::ipfix_def(true, 4) }, 1..=1),
-                    ],
-                    n,
-                )
-            };
-            (proptest::sample::subsequence(vec![256u16, 257, 300, 1024, 65535], n), per(true), per(false))
+    let per = |v9: bool| {
+        proptest::collection::vec(
+            prop_oneof![
+                5 => proptest::collection::vec(projected_def(v9), 1..=2),
+                1 => proptest::collection::vec(if v9 { gen::v9_def(true, 4) } else { gen::ipfix_def(true, 4) }, 1..=1),
+            ],
+            4..=4,
+        )
+    };
+    (proptest::sample::subsequence(vec![256u16, 257, 300, 1024, 65535], 2..=4), per(true), per(false))
+        .prop_map(|(ids, mut v9, mut ipfix)| {
+            v9.truncate(ids.len());
+            ipfix.truncate(ids.len());
+            gen::Pool { ids, v9, ipfix }
         })
-        .prop_map(|(ids, v9, ipfix)| gen::Pool { ids, v9, ipfix })
         .boxed()
 }
 
